@@ -70,6 +70,12 @@ def gen_grid(rng, S):
         xs = [float(i) for i in range(nx)] if defx else gen.axis_f(rng, nx, rng.choice(["uniform", "geometric", "random", "ulps", "evenish", "even"]))
         ys = [float(i) for i in range(ny)] if defy else gen.axis_f(rng, ny, rng.choice(["uniform", "geometric", "random", "log", "evenish"]))
         flat = [rng.uniform(-1, 1) * 10.0 ** rng.randint(-3, 5) for _ in range(gen.shape_size(shape))]
+        if not defx and not defy and rng.random() < 0.2:
+            # data and both axes in extreme units of the same direction (seed C04-r5m1: a rise multiplied by the offset before the
+            # division by the run leaves the number range; every quantity of the problem and of the result stays well inside it)
+            sg = rng.choice([1, -1])
+            kx, ky, kz = (2.0 ** (sg * rng.randint(520, 900)) for _ in range(3))
+            xs, ys, flat = [x * kx for x in xs], [y * ky for y in ys], [v * kz for v in flat]
     flat = gen.structured_grid(rng, nx, ny, gen.lanes_of(shape, 2), flat)
     return shape, defx, defy, xs, ys, flat
 
@@ -88,17 +94,8 @@ def build_line(rng, S, shape, defx, defy, xs, ys, flat, qx, qy, ext):
         e = {"scalar": lambda: e_scalar(S, qx[0], qy[0]), "single": lambda: e_single(S, qx[0], qy[0]),
              "into": lambda: e_into(S, [qx[0], qy[0]], shape[2:], rng.choice(gen.LAYS_ND))}[ent]()
     else:
-        k = rng.choice([0, 1, 1, 1, 2, 3])
-        n = len(qx)
-        if k == 0:
-            qshape, lx, ly = [], qx[:1], qy[:1]
-        elif k == 1:
-            qshape, lx, ly = [n], qx, qy
-        elif k == 2:
-            a = max(1, n // 2)
-            qshape, lx, ly = [a, 2], (qx * 2)[:a * 2], (qy * 2)[:a * 2]
-        else:
-            qshape, lx, ly = [2, 1, 2], (qx * 4)[:4], (qy * 4)[:4]
+        qshape = gen.query_shape(rng, len(qx))
+        lx, ly = gen.fill_shape(rng, qshape, qx, qy) if len(qshape) != 1 else (qx, qy)
         dtag, qtag = gen.pick_dims(rng, r, len(qshape))
         meta["qx"], meta["qy"], meta["qshape"] = lx, ly, qshape
         ql = rng.choice(gen.LAYS_ND)
